@@ -39,6 +39,7 @@ class FunctionInfo:
     cls: "ClassInfo | None" = None
     parent: "FunctionInfo | None" = None
     nested: dict = field(default_factory=dict)
+    rebinds: list = field(default_factory=list)  # `name = expr(name)` statements that re-bind this function after its def
 
     @property
     def params(self):
@@ -144,6 +145,7 @@ class ModuleInfo:
     functions: dict = field(default_factory=dict)
     classes: dict = field(default_factory=dict)
     constants: dict = field(default_factory=dict)  # name -> ast expr (module-level simple assignments)
+    rebinds: dict = field(default_factory=dict)  # imported name -> [expr, ...] re-binding it at module level, in order
 
     def segment(self, node):
         return ast.get_source_segment(self.src, node)
@@ -224,8 +226,9 @@ class Program:
                     yield from statements(node.orelse)
                     yield from statements(node.finalbody)
                 elif isinstance(node, ast.If):
-                    yield from statements(node.body)
-                    yield from statements(node.orelse)
+                    for x in list(statements(node.body)) + list(statements(node.orelse)):
+                        x._bb_conditional = True
+                        yield x
                 else:
                     yield node
 
@@ -246,10 +249,18 @@ class Program:
             elif isinstance(node, ast.ClassDef):
                 self._index_class(node, m, None, m.name)
             elif isinstance(node, ast.Assign) and len(node.targets) == 1 and isinstance(node.targets[0], ast.Name):
+                nm = node.targets[0].id
                 if getattr(node, "_bb_fallback", False):
-                    m.constants.setdefault(node.targets[0].id, node.value)
+                    m.constants.setdefault(nm, node.value)
+                elif nm in m.functions and not getattr(node, "_bb_conditional", False):
+                    # f = wrap(f) after `def f`: callers of f get what the statement makes of it
+                    m.functions[nm].rebinds.append(node.value)
+                elif nm in m.imports and nm not in m.constants and not getattr(node, "_bb_conditional", False):
+                    m.rebinds.setdefault(nm, []).append(node.value)
+                elif nm in m.rebinds:
+                    m.rebinds[nm].append(node.value)
                 else:
-                    m.constants[node.targets[0].id] = node.value
+                    m.constants[nm] = node.value
             elif isinstance(node, ast.AnnAssign) and isinstance(node.target, ast.Name) and node.value is not None:
                 m.constants[node.target.id] = node.value
 
@@ -260,6 +271,13 @@ class Program:
             q = f"{prefix}.{node.name}#{k}"
             k += 1
         fi = FunctionInfo(node.name, q, node, m, cls, parent)
+        q0 = f"{prefix}.{node.name}"
+        if q != q0 and parent is None and not getattr(node, "_bb_conditional", False) and not getattr(node, "_bb_fallback", False):
+            # an unconditional second def of the same name replaces the first: the plain qualified name is the last one
+            old = self.functions[q0]
+            old.qualname = q
+            self.functions[q] = old
+            fi.qualname = q = q0
         self.functions[q] = fi
         self.by_node[id(node)] = fi
         if parent is not None:
@@ -296,7 +314,11 @@ class Program:
                 if st.value is not None:
                     ci.class_attrs[mangle(st.target.id, ci.name)] = st.value
             elif isinstance(st, ast.Assign) and len(st.targets) == 1 and isinstance(st.targets[0], ast.Name):
-                ci.class_attrs[mangle(st.targets[0].id, ci.name)] = st.value
+                nm = mangle(st.targets[0].id, ci.name)
+                if nm in ci.methods:
+                    ci.methods[nm].rebinds.append(st.value)  # method = wrap(method) in the class body
+                else:
+                    ci.class_attrs[nm] = st.value
         return ci
 
     def _resolve_bases(self, c: ClassInfo):
